@@ -2422,7 +2422,7 @@ fn exhaustive(run: &Run, shared: &Shared) {
 }
 
 fn random_part(run: &Run, shared: &Shared) {
-    let cases = run.by_tier(50_000u64, 1_000_000);
+    let cases = run.by_tier(50_000u64, 6_000_000);
     const CHUNK: u64 = 128;
     let chunks = cases.div_ceil(CHUNK);
     // the budget only stops generating MORE histories: a minimum is always run (several floors depend on this part)
